@@ -193,17 +193,6 @@ impl BigUint {
 		}
 	}
 
-	fn value_push(&mut self, new: u64) {
-		if new == 0 {
-			return;
-		}
-		self.make_large();
-		match self {
-			Small(_) => unreachable!(),
-			Large(v) => v.push(new),
-		}
-	}
-
 	pub(crate) fn gcd<I: Interrupt>(mut a: Self, mut b: Self, int: &I) -> FResult<Self> {
 		while b >= 1.into() {
 			let r = a.rem(&b, int)?;
@@ -391,7 +380,8 @@ impl BigUint {
 	/// computes `self += (other * mul_digit) << (64 * shift)`
 	fn add_assign_internal(&mut self, other: &Self, mul_digit: u64, shift: usize) {
 		let mut carry = 0;
-		for i in 0..max(self.value_len(), other.value_len() + shift) {
+		let len = max(self.value_len(), other.value_len() + shift);
+		for i in 0..len {
 			let a = self.get(i);
 			let b = if i >= shift { other.get(i - shift) } else { 0 };
 			let sum = u128::from(a) + (u128::from(b) * u128::from(mul_digit)) + u128::from(carry);
@@ -399,7 +389,9 @@ impl BigUint {
 			carry = truncate(sum >> 64);
 		}
 		if carry != 0 {
-			self.value_push(carry);
+			// the carry belongs at limb `len`, which is not necessarily the end of
+			// the vector: a `Small` value stays small while only zeroes are stored
+			self.set(len, carry);
 		}
 	}
 
